@@ -201,7 +201,13 @@ let run_avl (c : case) =
   pr "end\n"
 
 (* ---------- hash set ---------- *)
-let hash_fn (vty : string) : (z -> n) * fty =
+let memo (f : z -> n) : z -> n =
+  let tbl = Hashtbl.create 64 in
+  fun v -> match Hashtbl.find_opt tbl v with
+    | Some h -> h
+    | None -> let h = f v in Hashtbl.add tbl v h; h
+
+let hash_fn0 (vty : string) : (z -> n) * fty =
   if String.length vty > 4 && String.sub vty 0 4 = "weak" then
     let m = z_of_string (String.sub vty 4 (String.length vty - 4)) in
     (hash_weak m, fty 8 false)
@@ -210,6 +216,8 @@ let hash_fn (vty : string) : (z -> n) * fty =
     | "u32" -> (hash_int (nat_of_int 4), fty 4 false)
     | "u8" -> (hash_int (nat_of_int 1), fty 1 false)
     | s -> failwith ("vty " ^ s)
+
+let hash_fn vty = let (f, t) = hash_fn0 vty in (memo f, t)
 
 let zlist_str (l : z list) = if l = [] then "-" else String.concat "," (List.map string_of_z l)
 
@@ -487,7 +495,7 @@ let rec dtree_str (t : dtree) : string =
   match t with
   | DE -> "."
   | DT (l, i, k, v, h, r) ->
-    Printf.sprintf "(%s %s:%s:%s:%s %s)" (dtree_str l) (string_of_n i) (string_of_z k) (string_of_z v)
+    Printf.sprintf "(%s,%s:%s:%s:%s,%s)" (dtree_str l) (string_of_n i) (string_of_z k) (string_of_z v)
       (string_of_n h) (dtree_str r)
 let nlist_str (l : n list) = if l = [] then "-" else String.concat "," (List.map string_of_n l)
 
